@@ -14,16 +14,21 @@ def to_py_item(j, npint=False):
         return None
     if j == "...":
         return Ellipsis
+    step1 = npint == 2          # spelling 2: every slice without a step is written with the explicit step 1
+    npint = npint is True or npint == 1
     cv = (lambda x: None if x is None else np.int64(x)) if npint else (lambda x: x)
     if isinstance(j, dict):
         a, b, c = j["s"]
+        if step1 and c is None:
+            c = 1
         return slice(cv(a), cv(b), cv(c))
     return np.int64(j) if npint else int(j)
 
 
 def npint_of(case):
-    """Whether a case passes its integers as numpy integers (derived from the case, about one in six)."""
-    return case.get("wseed", 1) % 6 == 0
+    """The spelling of a case's index entries, derived from the case: 1 = numpy integers instead of Python ints
+    (about one case in six), 2 = slices written with the explicit default step 1 (another sixth), 0 = plain."""
+    return {0: 1, 3: 2}.get(case.get("wseed", 1) % 6, 0)
 
 
 def to_py_index(items, bare=False, npint=False):
